@@ -164,9 +164,11 @@ def lemma_next_patch_is_found():
     # _infer_name of that very file gives the name back: InferName's second case with k = str(idx + 1), a digit string (T_NAMES) — so the patch after it is named alike
 
 
-def add_naming(reg):
+def add_naming(reg, register=True):
+    """register=False: the two bodies are verified on their own; callers in that registry keep seeing the callee contracts they had"""
     reg.set_class_home("IH5Record", "ih5/record.py")
     a, b = InferName(), NextPatchPathBody()
-    reg.add(a)
-    reg.add(b)
+    if register:
+        reg.add(a)
+        reg.add(b)
     return [a, b]
